@@ -56,7 +56,9 @@ def run(sid, tier="quick"):
     t = time.time()
     gen = os.path.join(VERIF, "lean", "PybropsModel", "Generated")
     bak = f"/tmp/sr_{sid}_generated"
-    regen = pid in ("C08", "C20")      # only these checks rewrite Generated/*; others may run in parallel
+    regen = pid in ("C08", "C20")      # these checks rewrite Generated/C08*, C20*; PyK_<pid>.lean is restored per file below
+    pyk = os.path.join(gen, f"PyK_{pid}.lean")
+    pyk_bak = open(pyk).read() if os.path.exists(pyk) else None
     if regen:
         shutil.rmtree(bak, ignore_errors=True)
         shutil.copytree(gen, bak)      # regenerated files are put back exactly as they were before this run
@@ -71,9 +73,12 @@ def run(sid, tier="quick"):
     finally:
         sh(f"git -C /repo worktree remove --force {wt}")
         if regen:
-            shutil.rmtree(gen, ignore_errors=True)
-            shutil.copytree(bak, gen)
+            for fn in os.listdir(bak):
+                if not fn.startswith("PyK_"):
+                    shutil.copy2(os.path.join(bak, fn), os.path.join(gen, fn))
             shutil.rmtree(bak, ignore_errors=True)
+        if pyk_bak is not None and open(pyk).read() != pyk_bak:
+            open(pyk, "w").write(pyk_bak)     # kernel file regenerated from the mutant tree: put the snapshot back
     lines = [l for l in out.splitlines() if l.startswith(("VIOLATION", "KNOWN-FINDING", "HARNESS-ERROR", f"[{pid}]"))]
     res = {"tier": tier, "exit": rc, "caught": rc == 1 and any(l.startswith("VIOLATION") for l in lines),
            "with_failing_input": any(l.startswith("VIOLATION") and "no-failing-input-found" not in l for l in lines),
